@@ -193,3 +193,154 @@ Theorem C07_edits_ok_never_panics :
   forall (t : text) es s, edits_ok_from s (length t) es = true -> exists r, resolve t s es = Some r.
 Proof. exact edits_ok_resolve. Qed.
 Print Assumptions C07_edits_ok_never_panics.
+
+(* ==================================================================================================================
+   C07 composed with C08 / C01 (Proofs/NormalizeBuffer.v).
+   Model/Buffer.v (C08, C01) proves the offset-map invariant and the partition theorems for buffer states reachable by
+   batches of BYTE-level edits satisfying `Buffer.edits_ok` (sorted, non-overlapping, in range, on character boundaries)
+   with UTF-8 replacement strings (`PipelineFull.ReachU`).  Below: the code-point-level edit lists of the three plugins,
+   translated to byte offsets of the UTF-8 encoding `enc t`, ARE such batches; commit on them yields `enc` of the
+   specified text; hence every stack of the three plugins, in any order and number, leads from `start_build (enc t0)` to
+   a ReachU state whose text is `enc` of the composition of the per-plugin specifications.
+   Names of Model/Buffer.v are written qualified (this file imports Model/Normalize.v). *)
+From Coq Require Import ZArith.
+From SudachiVerif Require Model.Buffer Proofs.BufferProofs Proofs.PipelineFull Model.Lattice Proofs.PipelineProofs Model.Rewrite Model.Split.
+From SudachiVerif Require Import Proofs.NormalizeBuffer.
+
+(* the constants of buffer/mod.rs and edit.rs re-read from the source: index choices of add_replace, sentinels, ... *)
+Fact C07_fact_buffer_cfg : Buffer.cfg_ok Buffer.the_cfg = true.
+Proof. vm_compute. reflexivity. Qed.
+(* both length guards are `>` comparisons against a limit below 2^64 (needed only for the plain-number form of the limits) *)
+Fact C07_fact_buffer_guards :
+  Buffer.c_resolve_cmp Buffer.the_cfg = ">"%string /\ Buffer.c_commit_cmp Buffer.the_cfg = ">"%string
+  /\ (Z.of_N (Buffer.c_commit_limit Buffer.the_cfg) < 18446744073709551616)%Z.
+Proof. vm_compute. repeat split; reflexivity. Qed.
+
+(* (1) the translation: code-point index i -> byte offset of the encoded prefix; replacement -> its encoding *)
+Theorem C07_translation_def :
+  forall (t : text) (e : edit),
+    tr_edit t e = Buffer.mkE (length (enc (firstn (e_start e) t))) (length (enc (firstn (e_end e) t))) (enc (e_repl e)).
+Proof. exact (fun t e => eq_refl). Qed.
+Print Assumptions C07_translation_def.
+
+(* the UTF-8 encoding is injective: the code-point view of a buffer text is unique *)
+Theorem C07_enc_injective : forall a b : text, enc a = enc b -> a = b.
+Proof. exact enc_inj. Qed.
+Print Assumptions C07_enc_injective.
+
+(* (2) generic: a code-point edit list that is sorted / non-overlapping / in range translates to a batch satisfying
+   Buffer.edits_ok over the encoded text, with UTF-8 replacement strings *)
+Theorem C07_translated_edits_ok :
+  forall (t : text) es, edits_ok t es = true ->
+    Buffer.edits_ok (enc t) (tr_edits t es) = true /\ PipelineFull.utf8_edits (tr_edits t es).
+Proof. exact (fun t es H => conj (tr_edits_ok t es H) (tr_edits_utf8 t es)). Qed.
+Print Assumptions C07_translated_edits_ok.
+
+(* (2) for the three plugins (plugin = P_default .. | P_psm .. | P_yomi ..; plugin_wf = table with distinct non-empty keys
+   + the oracle laws, for P_default; nothing for the other two) *)
+Theorem C07_plugin_edits_translate_ok :
+  forall (p : plugin) (t : text), plugin_wf p ->
+    Buffer.edits_ok (enc t) (tr_edits t (plugin_edits p t)) = true /\ PipelineFull.utf8_edits (tr_edits t (plugin_edits p t)).
+Proof. exact (plugin_edits_translate_ok C07_fact_slow_search_longest C07_fact_lowercase_guard C07_fact_path_guard). Qed.
+Print Assumptions C07_plugin_edits_translate_ok.
+
+(* (3) commit on a translated batch: whenever it answers Ok, the new text is the encoding of apply_edits' result and the
+   original is untouched; and it does answer Ok (no panic, no Err) when the two length guards stay quiet *)
+Theorem C07_commit_translated :
+  forall cfg, Buffer.cfg_ok cfg = true ->
+  forall (t : text) (s : Buffer.buf) es r,
+    Buffer.cur s = enc t -> length (Buffer.m2o s) = length (Buffer.cur s) + 1 -> apply_edits t es = Some r ->
+    (forall s', Buffer.commit cfg s (tr_edits t es) = Buffer.Ok s' -> Buffer.cur s' = enc r /\ Buffer.orig s' = Buffer.orig s)
+    /\ (within_from cfg t es (Z.of_nat (length (enc t))) = true -> commit_within cfg r = true ->
+        exists s', Buffer.commit cfg s (tr_edits t es) = Buffer.Ok s').
+Proof. exact tr_commit. Qed.
+Print Assumptions C07_commit_translated.
+
+(* one plugin on a reachable buffer = one ReachU step, and the text afterwards is the encoding of the plugin's specification *)
+Theorem C07_plugin_step_reaches :
+  forall cfg, Buffer.cfg_ok cfg = true ->
+  forall (t0 : text) (s : Buffer.buf) (t : text) (p : plugin) (s' : Buffer.buf),
+    PipelineFull.ReachU cfg (enc t0) s -> Buffer.cur s = enc t -> plugin_wf p -> (t <> [] -> plugin_spec p t <> []) ->
+    Buffer.commit cfg s (tr_edits t (plugin_edits p t)) = Buffer.Ok s' ->
+    PipelineFull.ReachU cfg (enc t0) s' /\ Buffer.cur s' = enc (plugin_spec p t).
+Proof. exact (plugin_step C07_fact_slow_search_longest C07_fact_lowercase_guard C07_fact_path_guard). Qed.
+Print Assumptions C07_plugin_step_reaches.
+
+(* (4) EVERY run of EVERY stack of the three plugins (any order, any number) from start_build (enc t0):
+   the buffer is ReachU-reachable and its text is the encoding of the composition of the per-plugin specifications.
+   stack_run = each plugin reads the buffer's text as code points (cur s = enc t) and its translated edits are committed;
+   stack_nonempty = no plugin empties a non-empty text (Buffer.v's reachability excludes emptied texts) *)
+Theorem C07_plugin_stack_reaches :
+  forall cfg, Buffer.cfg_ok cfg = true ->
+  forall (ps : list plugin) (t0 : text) (s0 s : Buffer.buf),
+    Forall plugin_wf ps -> stack_nonempty ps t0 ->
+    Buffer.start_build cfg (enc t0) = Buffer.Ok s0 -> stack_run cfg ps s0 s ->
+    PipelineFull.ReachU cfg (enc t0) s /\ Buffer.cur s = enc (stack_spec ps t0).
+Proof. exact (plugin_stack_reaches C07_fact_slow_search_longest C07_fact_lowercase_guard C07_fact_path_guard). Qed.
+Print Assumptions C07_plugin_stack_reaches.
+
+(* ... and within the length limits the stack does run through (no panic in resolve_edits, no InputTooLong):
+   stack_within = per plugin, the running length inside resolve_edits never trips its guard (within_from) and the
+   produced text passes commit's guard (commit_within); MAX_LENGTH is the hypothesis start_build .. = Ok *)
+Theorem C07_plugin_stack_runs :
+  forall cfg, Buffer.cfg_ok cfg = true ->
+  forall (ps : list plugin) (t0 : text) (s0 : Buffer.buf),
+    Forall plugin_wf ps -> stack_nonempty ps t0 -> stack_within cfg ps t0 ->
+    Buffer.start_build cfg (enc t0) = Buffer.Ok s0 -> exists s, stack_run cfg ps s0 s.
+Proof. exact (plugin_stack_runs C07_fact_slow_search_longest C07_fact_lowercase_guard C07_fact_path_guard). Qed.
+Print Assumptions C07_plugin_stack_runs.
+
+(* the same for the constants of the code, limits in plain numbers (stack_fits: before each plugin, bytes of the text +
+   bytes the plugin inserts <= REALLY_MAX_LENGTH, and bytes of the text it produces <= REALLY_MAX_LENGTH), with C08's
+   invariant as part of the conclusion *)
+Theorem C07_plugin_stack_total :
+  forall (ps : list plugin) (t0 : text) (s0 : Buffer.buf),
+    Forall plugin_wf ps -> stack_nonempty ps t0 -> stack_fits Buffer.the_cfg ps t0 ->
+    Buffer.start_build Buffer.the_cfg (enc t0) = Buffer.Ok s0 ->
+    exists s, stack_run Buffer.the_cfg ps s0 s /\ PipelineFull.ReachU Buffer.the_cfg (enc t0) s
+              /\ Buffer.cur s = enc (stack_spec ps t0) /\ BufferProofs.InvPos (enc t0) s.
+Proof.
+  exact (plugin_stack_total C07_fact_slow_search_longest C07_fact_lowercase_guard C07_fact_path_guard Buffer.the_cfg
+           C07_fact_buffer_cfg (proj1 C07_fact_buffer_guards) (proj1 (proj2 C07_fact_buffer_guards)) (proj2 (proj2 C07_fact_buffer_guards))).
+Qed.
+Print Assumptions C07_plugin_stack_total.
+
+(* C08 for the real plugin stacks: offset map of the right length, start -> start, end -> end, monotone, boundaries ->
+   boundaries — without a hypothetical edits_ok *)
+Theorem C07_plugin_stack_offset_map :
+  forall cfg, Buffer.cfg_ok cfg = true ->
+  forall (ps : list plugin) (t0 : text) (s0 s : Buffer.buf),
+    Forall plugin_wf ps -> stack_nonempty ps t0 ->
+    Buffer.start_build cfg (enc t0) = Buffer.Ok s0 -> stack_run cfg ps s0 s ->
+    BufferProofs.InvPos (enc t0) s.
+Proof. exact (plugin_stack_offset_map C07_fact_slow_search_longest C07_fact_lowercase_guard C07_fact_path_guard). Qed.
+Print Assumptions C07_plugin_stack_offset_map.
+
+(* C01 for the real plugin stacks: PipelineFull.pipeline_partitions_original with `Reach` and `cur s = enc t` discharged;
+   the code-point view of the rewritten text is the SPECIFIED text stack_spec ps t0 *)
+Theorem C07_plugin_stack_pipeline_partitions :
+  forall cfg, Buffer.cfg_ok cfg = true ->
+  forall (conn : N -> N -> Z) (ps : list plugin) (t0 : text) (s0 s : Buffer.buf),
+    Forall plugin_wf ps -> stack_nonempty ps t0 ->
+    Buffer.start_build cfg (enc t0) = Buffer.Ok s0 -> stack_run cfg ps s0 s ->
+    forall ns r i c,
+      Lattice.nodes_ok (PipelineProofs.nchars (Buffer.cur s)) ns -> (0 < PipelineProofs.nchars (Buffer.cur s))%nat ->
+      Lattice.connect_eos conn (Lattice.insert_all conn (Lattice.reset (PipelineProofs.nchars (Buffer.cur s))) ns) = Some (r, i, c) ->
+      exists es p,
+        Lattice.top_path conn (Lattice.insert_all conn (Lattice.reset (PipelineProofs.nchars (Buffer.cur s))) ns) = Some es /\
+        map Lattice.enode es = map Some p /\ Lattice.path_cost conn p = c /\
+        forall pr pls q sps hw key ua ub m,
+          Forall2 (PipelineFull.rnode_of (Buffer.cur s)) p pr ->
+          Rewrite.run_plugins pls pr = Some (Rewrite.Ok q) ->
+          Forall2 PipelineFull.snode_of q sps ->
+          Split.split_facts_ok = true -> PipelineFull.mode_wf hw key (stack_spec ps t0) ua ub m sps ->
+          exists final,
+            Split.tokenize_mode hw (stack_spec ps t0) ua ub m sps = Some final /\
+            let ranges := map (Buffer.map_range (Buffer.m2o s)) (map PipelineFull.sbytes final) in
+            Buffer.partition_b (enc t0) ranges = true /\
+            concat (map (Buffer.byte_slice (enc t0)) ranges) = enc t0 /\
+            (forall n, In n final ->
+               Buffer.orig_slice s (fst (PipelineFull.sbytes n)) (snd (PipelineFull.sbytes n))
+               = Some (Buffer.byte_slice (enc t0) (Buffer.map_range (Buffer.m2o s) (PipelineFull.sbytes n)))).
+Proof. exact (plugin_stack_pipeline_partitions C07_fact_slow_search_longest C07_fact_lowercase_guard C07_fact_path_guard). Qed.
+Print Assumptions C07_plugin_stack_pipeline_partitions.
